@@ -486,7 +486,7 @@ func (w *world) exec(r *Request, keep bool, st *stats) (fs []finding) {
 			w.prev[cn.op] = cn
 		}
 		if !keep {
-			w.undo()
+			w.undoTainted(len(fs) > 0)
 		}
 	}
 	return fs
